@@ -365,7 +365,7 @@ def c03(run):
     run.cov["rule"] = SCHED_RULE
     run.assumptions += SCHED_ASSUME
     world_stage(run, "fifo-schedules", "systems", "MCSched.tla", "MCSched.cfg",
-                extra=["--families", "fifo", "--nsys", _nsys(run, 500, 6000)])
+                extra=["--families", "fifo", "--nsys", _nsys(run, 2500, 20000)])
     _equational(run, "fifo", scale="4")
 
 
